@@ -1,2 +1,200 @@
+/-
+  C14 — replies reassemble identically under any TCP segmentation; EOF is an error.
+  A socket is its list of pending chunks; a `recv(n)` returns the first min(n, |head|) bytes.
+  All statements are by induction on the chunk list: every partition, any number of chunks,
+  splits inside the 16-byte header included.
+-/
 import DpapiNg.Model.RpcClient
-import DpapiNg.Model.Client
+import DpapiNg.Proofs.PyLemmas
+namespace DpapiNg.C14
+open DpapiNg DpapiNg.Rpc DpapiNg.RpcClient
+
+theorem split_le {c X data rest : Bytes} (h : c ++ X = data ++ rest) (hle : c.length ≤ data.length) :
+    ∃ d', data = c ++ d' ∧ X = d' ++ rest := by
+  rcases List.append_eq_append_iff.mp h with ⟨a', h1, h2⟩ | ⟨c', h1, h2⟩
+  · exact ⟨a', h1, h2⟩
+  · have : c'.length = 0 := by
+      have := congrArg List.length h1; simp at this; omega
+    have hc' : c' = [] := List.eq_nil_of_length_eq_zero this
+    subst hc'
+    exact ⟨[], by simpa using h1.symm, by simpa using h2.symm⟩
+
+theorem split_gt {c X data rest : Bytes} (h : c ++ X = data ++ rest) (hgt : data.length < c.length) :
+    ∃ c', c = data ++ c' ∧ rest = c' ++ X ∧ c' ≠ [] := by
+  rcases List.append_eq_append_iff.mp h with ⟨a', h1, h2⟩ | ⟨c', h1, h2⟩
+  · have := congrArg List.length h1; simp at this; omega
+  · refine ⟨c', h1, h2, ?_⟩
+    intro hc; subst hc; simp at h1; subst h1; omega
+
+/-- The read loop returns exactly the first `n` bytes of the stream for EVERY chunking, leaves the rest
+    of the stream intact, and issues at most one `recv` per chunk. -/
+theorem readN_ok (n : Nat) (chunks : List Bytes) (data rest : Bytes)
+    (hne : ∀ c ∈ chunks, c ≠ []) (hflat : chunks.flatten = data ++ rest) (hlen : data.length = n) :
+    ∃ r k, readN n chunks = .ok (data, r, k) ∧ r.flatten = rest ∧ k ≤ chunks.length ∧ (∀ c ∈ r, c ≠ []) := by
+  induction chunks generalizing n data with
+  | nil =>
+    simp at hflat
+    obtain ⟨rfl, rfl⟩ := hflat
+    simp at hlen; subst hlen
+    exact ⟨[], 0, by simp [readN], by simp, by simp, by simp⟩
+  | cons c cs ih =>
+    cases n with
+    | zero =>
+      have : data = [] := List.eq_nil_of_length_eq_zero hlen
+      subst this
+      exact ⟨c :: cs, 0, by simp [readN], by simpa using hflat, by simp, hne⟩
+    | succ n =>
+      have hc : c ≠ [] := hne c (by simp)
+      have hcs : ∀ x ∈ cs, x ≠ [] := fun x hx => hne x (by simp [hx])
+      simp only [List.flatten_cons] at hflat
+      simp only [readN, hc, if_false]
+      split
+      · rename_i hle
+        obtain ⟨d', hd, hX⟩ := split_le hflat (by omega)
+        subst hd
+        obtain ⟨r, k, h1, h2, h3, h4⟩ := ih (n + 1 - c.length) d' hcs hX (by simp at hlen; omega)
+        exact ⟨r, k+1, by rw [h1]; rfl, h2, by simp; omega, h4⟩
+      · rename_i hgt
+        obtain ⟨c', hc', hrest, hc'ne⟩ := split_gt hflat (by omega)
+        subst hc'
+        refine ⟨c' :: cs, 1, ?_, by simp [hrest], by simp, ?_⟩
+        · rw [← hlen, List.take_left', List.drop_left'] <;> rfl
+        · intro x hx; simp at hx; rcases hx with rfl | hx
+          · exact hc'ne
+          · exact hcs x hx
+
+/-- A stream that ends before `n` bytes have arrived is a ConnectionError. -/
+theorem readN_eof (n : Nat) (chunks : List Bytes) (hshort : chunks.flatten.length < n) :
+    readN n chunks = .error .connectionError := by
+  induction chunks generalizing n with
+  | nil => cases n with
+    | zero => simp at hshort
+    | succ n => rfl
+  | cons c cs ih =>
+    cases n with
+    | zero => simp at hshort
+    | succ n =>
+      simp only [List.flatten_cons, List.length_append] at hshort
+      simp only [readN]
+      split
+      · rfl
+      · split
+        · rw [ih (n + 1 - c.length) (by omega)]; rfl
+        · omega
+
+/-- The loop never spins: whatever happens, it issues at most one `recv` per chunk plus the one
+    that observes the closed connection. -/
+theorem readNCalls_le (n : Nat) (chunks : List Bytes) : readNCalls n chunks ≤ chunks.length + 1 := by
+  induction chunks generalizing n with
+  | nil => cases n <;> simp [readNCalls]
+  | cons c cs ih =>
+    cases n with
+    | zero => simp [readNCalls]
+    | succ n =>
+      simp only [readNCalls]
+      split
+      · simp
+      · split
+        · have := ih (n + 1 - c.length); simp only [List.length_cons]; omega
+        · simp
+
+/-- recv calls and what is left: every call either consumes a chunk or splits the last one it touches -/
+theorem readN_calls_rest (n : Nat) (cs : List Bytes) (d : Bytes) (r : List Bytes) (k : Nat)
+    (hr : readN n cs = .ok (d, r, k)) : k + r.length ≤ cs.length + 1 := by
+  induction cs generalizing n d r k with
+  | nil => cases n <;> simp [readN] at hr; obtain ⟨_, h2, h3⟩ := hr; subst h2; subst h3; simp
+  | cons c cs ih =>
+    cases n with
+    | zero => simp [readN] at hr; obtain ⟨_, h2, h3⟩ := hr; subst h2; subst h3; simp
+    | succ n =>
+      simp only [readN] at hr
+      split at hr
+      · cases hr
+      · split at hr
+        · cases hrec : readN (n + 1 - c.length) cs with
+          | error e => simp [hrec, Except.map] at hr
+          | ok v =>
+            obtain ⟨d', r', k'⟩ := v
+            simp only [hrec, Except.map, Except.ok.injEq, Prod.mk.injEq] at hr
+            have := ih _ d' r' k' hrec
+            obtain ⟨_, h2, h3⟩ := hr
+            subst h2; subst h3
+            simp only [List.length_cons]; omega
+        · simp only [Except.ok.injEq, Prod.mk.injEq] at hr
+          obtain ⟨_, h2, h3⟩ := hr
+          subst h2; subst h3
+          simp only [List.length_cons]; omega
+
+/-- Reassembly: for every partition of `reply ++ rest` into non-empty chunks, where `reply` is one framed
+    PDU (its header decodes and its frag_len is its length ≥ 16), the sync client reads exactly `reply`,
+    leaves `rest` unread, and the async client (readexactly over the same byte stream) reads the same. -/
+theorem reassembly (reply rest : Bytes) (chunks : List Bytes) (h : Header)
+    (hne : ∀ c ∈ chunks, c ≠ []) (hflat : chunks.flatten = reply ++ rest)
+    (hhdr : headerUnpack (reply.take 16) = .ok h) (hfl : h.fragLen = reply.length) (h16 : 16 ≤ reply.length) :
+    (∃ r k, recvSync chunks = .ok (reply, h, r, k) ∧ r.flatten = rest ∧ k ≤ chunks.length + 1) ∧
+    recvAsync chunks.flatten = .ok (reply, h, rest) := by
+  have hsplit : reply = reply.take 16 ++ reply.drop 16 := (List.take_append_drop 16 reply).symm
+  have hl16 : (reply.take 16).length = 16 := by simp; omega
+  constructor
+  · have hflat1 : chunks.flatten = reply.take 16 ++ (reply.drop 16 ++ rest) := by
+      rw [hflat]
+      have := List.take_append_drop 16 reply
+      calc reply ++ rest = (reply.take 16 ++ reply.drop 16) ++ rest := by rw [this]
+        _ = reply.take 16 ++ (reply.drop 16 ++ rest) := List.append_assoc _ _ _
+    obtain ⟨r1, k1, e1, f1, le1, ne1⟩ := readN_ok 16 chunks (reply.take 16) (reply.drop 16 ++ rest) hne hflat1 hl16
+    have hl2 : (reply.drop 16).length = h.fragLen - 16 := by simp [hfl]
+    obtain ⟨r2, k2, e2, f2, le2, _⟩ := readN_ok (h.fragLen - 16) r1 (reply.drop 16) rest ne1 f1 hl2
+    refine ⟨r2, k1 + k2, ?_, f2, ?_⟩
+    · unfold recvSync
+      have hnot : ¬ h.fragLen < 16 := by omega
+      simp only [e1, Bind.bind, Except.bind, hhdr, hnot, if_false, e2, pure, Except.pure]
+      rw [← hsplit]
+    · have := readN_calls_rest _ _ _ _ _ e1
+      omega
+  · unfold recvAsync readExactly
+    rw [hflat]
+    have hlen : ¬ (reply ++ rest).length < 16 := by simp; omega
+    simp only [hlen, if_false, Bind.bind, Except.bind]
+    have t1 : (reply ++ rest).take 16 = reply.take 16 := by
+      rw [List.take_append_of_le_length (by omega)]
+    have d1 : (reply ++ rest).drop 16 = reply.drop 16 ++ rest := by
+      rw [List.drop_append_of_le_length (by omega)]
+    simp only [t1, d1, hhdr]
+    have hnot : ¬ h.fragLen < 16 := by omega
+    have hlen2 : ¬ (reply.drop 16 ++ rest).length < h.fragLen - 16 := by simp [hfl]
+    simp only [hnot, if_false, hlen2, pure, Except.pure]
+    have t2 : (reply.drop 16 ++ rest).take (h.fragLen - 16) = reply.drop 16 := by
+      rw [hfl]; exact Py.take_prefix _ _ _ (by simp)
+    have d2 : (reply.drop 16 ++ rest).drop (h.fragLen - 16) = rest := by
+      rw [hfl]; exact Py.drop_prefix _ _ _ (by simp)
+    rw [t2, d2, ← hsplit]
+
+/-- EOF before a full PDU is an error for both clients (ConnectionError / IncompleteReadError), never a spin. -/
+theorem eof_is_error (chunks : List Bytes) (h : Header) (hne : ∀ c ∈ chunks, c ≠ []) :
+    (chunks.flatten.length < 16 → recvSync chunks = .error .connectionError ∧ recvAsync chunks.flatten = .error .incompleteRead) ∧
+    (16 ≤ chunks.flatten.length → headerUnpack (chunks.flatten.take 16) = .ok h → 16 ≤ h.fragLen → chunks.flatten.length < h.fragLen →
+      recvSync chunks = .error .connectionError ∧ recvAsync chunks.flatten = .error .incompleteRead) := by
+  generalize hS : chunks.flatten = S
+  constructor
+  · intro hs
+    have e := readN_eof 16 chunks (by rw [hS]; exact hs)
+    constructor
+    · unfold recvSync; rw [e]; rfl
+    · unfold recvAsync readExactly; simp only [hs, if_true]; rfl
+  · intro h16 hh hf hs
+    have hflat : chunks.flatten = S.take 16 ++ (S.drop 16 ++ []) := by rw [hS]; simp
+    have hl : (S.take 16).length = 16 := by rw [List.length_take]; omega
+    obtain ⟨r1, k1, e1, f1, _, ne1⟩ := readN_ok 16 chunks (S.take 16) (S.drop 16 ++ []) hne hflat hl
+    have hnot : ¬ h.fragLen < 16 := by omega
+    have hdl : (S.drop 16).length = S.length - 16 := List.length_drop
+    constructor
+    · unfold recvSync
+      have hshort : r1.flatten.length < h.fragLen - 16 := by rw [f1, List.append_nil, hdl]; omega
+      have e2 := readN_eof _ r1 hshort
+      simp only [e1, Bind.bind, Except.bind, hh, hnot, if_false, e2]
+    · unfold recvAsync readExactly
+      have hlen : ¬ S.length < 16 := by omega
+      have hlen2 : (S.drop 16).length < h.fragLen - 16 := by rw [hdl]; omega
+      simp only [hlen, if_false, Bind.bind, Except.bind, hh, hnot, hlen2, if_true, pure, Except.pure]
+
+end DpapiNg.C14
